@@ -1042,6 +1042,17 @@ func (s *Sim) deliverResp(c *Conn, h *half, f *frame, now time.Time) {
 					thr, code = int32(r.Arg), 0
 				}
 				if rewrite(resp, code, thr) {
+					if r.Kind == "throttle" && r.DurMs > 0 {
+						// ... and the throttled connection is reset while the
+						// client honours the throttle
+						s.AtDriver(s.Now()+time.Duration(r.DurMs)*time.Millisecond, func() {
+							if !c.dead.Load() {
+								s.Count("fault.throttled_conn_reset", 1)
+								s.Logf("FAULT reset of throttled connection %s", c.Name)
+								c.kill()
+							}
+						})
+					}
 					s.Count("fault."+r.Kind, 1)
 					s.Logf("FAULT %s %s key=%d corr=%d code=%d", r.Kind, c.Name, ri.key, corr, r.Code)
 					data = encodeResp(corr, resp)
